@@ -894,3 +894,6 @@ def parts(tier):
     from vt.props import c18_files   # parts that need generated RP66V1 / LIS files
     ret.extend(c18_files.parts(tier))
     return ret
+
+
+RULE += "  Added after the seeding rounds: comments (also with -- and a trailing -) and exceptions caught around an element in the xml-writer documents; rp66v1-xml-index with private record types 128..255 and both settings of the writer's private option; attribute values compared."
